@@ -172,8 +172,14 @@ Fixpoint walk (f : fs) (cur : path) (comps : list string) : path + errno :=
       end
   end.
 
+(** PATH_MAX: a path of 4096 bytes or more is refused before any lookup.  The
+    modelled tree hangs below an unknown prefix, so only the case that does not
+    depend on it is modelled: one segment alone is that long. *)
+Definition path_max_exceeded (p : path) : bool := existsb (fun s => Nat.ltb 4095 (String.length s)) p.
+
 Definition resolve (f : fs) (p : path) : path + errno :=
   if has_abs p then inr ENOENT          (* outside the modelled tree *)
+  else if path_max_exceeded p then inr ENAMETOOLONG
   else match flatten p with
        | None => inr ENOENT
        | Some comps => walk f [] comps
